@@ -25,6 +25,16 @@ RUNNING = '0.4.3b1'
 FLOOR = '0.3.0'
 
 
+VERSION_SHAPES = [
+    {},
+    {'zones': [{'name': 'GLOBAL', 'start': 0, 'end': 0xFFF}]},
+    {'zones': [{'name': 'zz', 'start': 0x10, 'end': 0x1F}]},
+    {'zones': [{'name': 'zz', 'start': 0x10, 'end': 0x1F}, {'name': 'GLOBAL', 'start': 0, 'end': 0xFFFF}],
+     'constants': [{'name': 'KC', 'value': 3}]},
+    {'constants': [{'name': 'KC', 'value': 3}], 'symbols': [{'name': 'SY', 'value': '1'}]},
+]
+
+
 def vkey(v):
     """own ordering of x.y.z[pre]: integer triple, then pre-release rank (a < b < none)"""
     import re
@@ -233,7 +243,7 @@ def meta(tier):
                 'instructions, mnemonic / macro / register := keyword (each keyword, lower and upper case for mnemonics), macro := '
                 'instruction name, undeclared operand set (instruction and macro), undeclared register, no register declared at all (empty / deleted / null section), count := len+-1, an explicitly listed combination with one operand too few / too many, inverted '
                 'numeric_bytecode range, zone end := 2^bits, start := end+1, start := -1; (c) min_version := x.y.z[pre] over '
-                'x in {0,1}, y,z in {0,2,3,4,5,9,10,30}, pre in {none,a1,b1,b2}; (d) #require "<name> <op> <v>" over 3 language names (with hyphen, period, underscore) x ISA version x '
+                'x in {0,1}, y,z in {0,2,3,4,5,9,10,30}, pre in {none,a1,b1,b2}, the rest of the definition rotating over 5 shapes (nothing else, a redefined GLOBAL zone, another zone, zones and constants, constants and symbols); (d) #require "<name> <op> <v>" over 3 language names (with hyphen, period, underscore) x ISA version x '
                 '5 operators x an 8-version pool whose numeric and lexical orders differ x {matching, other} name; '
                 '(e) every program of two or three #require lines drawn from 8 (4 satisfied, 4 not; same or another language) in one file or split between the main file and an included one, accepted iff every line is satisfied; '
                 'non-trivial = every fault / grid point (each is a distinct definition or line)',
@@ -296,7 +306,9 @@ def shard(acc, tier, idx, n):
         if ctr % n != idx:
             continue
         v = f'{x}.{y}.{z}{pre}'
-        isa = probe_isa(16, 'little')
+        # the gate holds whatever else the definition declares: every other section of the definition rotates through the grid
+        shape = VERSION_SHAPES[ctr % len(VERSION_SHAPES)]
+        isa = probe_isa(16, 'little', **copy.deepcopy(shape))
         isa['general']['min_version'] = v
         ok = vkey(FLOOR) <= vkey(v) <= vkey(RUNNING)
         load(acc, isa, False, ok, f'min_version {v} (running {RUNNING}, floor {FLOOR})', 'min-version')
